@@ -8,8 +8,7 @@ TraceLog == ndJsonDeserialize(IOEnv.TRACE)
 
 VARIABLE l
 
-LineOK(ln) ==
-  LET r == StreamDecode(ln.buf, ln.n) IN
+LineJudge(ln, r) ==
   /\ ln.st = r.st
   /\ ln.allocs = 0                                     \* the call requests / releases no memory
   /\ ln.st = "fin" =>
@@ -25,6 +24,8 @@ LineOK(ln) ==
         /\ ln.calls = 0 /\ ln.read = 0
         /\ RequiredOK(ln.req, ln.n, r.full)
   /\ ln.st = "error" => ln.calls = 0 /\ ln.read = 0
+
+LineOK(ln) == LineJudge(ln, StreamDecode(ln.buf, ln.n))
 
 Init == l = 1
 Next == l <= Len(TraceLog) /\ LineOK(TraceLog[l]) /\ l' = l + 1
